@@ -95,27 +95,43 @@ class Probes:
             if ctx.in_oracle and not always:
                 return raw(*args, **kwargs)
             snap = None
+            pre_ok = True
             if pre is not None:
                 ctx.in_oracle += 1
                 try:
                     snap = pre(args, kwargs)
+                except BudgetExceeded:
+                    raise
+                except Exception:
+                    pre_ok = False
+                    ctx.monitor_error(name)
                 finally:
                     ctx.in_oracle -= 1
             try:
                 result = raw(*args, **kwargs)
             except BaseException as exc:
-                if not isinstance(exc, BudgetExceeded):
+                if not isinstance(exc, BudgetExceeded) and pre_ok:
                     ctx.in_oracle += 1
                     try:
                         post(snap, args, kwargs, None, exc)
+                    except BudgetExceeded:
+                        pass
+                    except Exception:
+                        ctx.monitor_error(name)
                     finally:
                         ctx.in_oracle -= 1
                 raise
-            ctx.in_oracle += 1
-            try:
-                post(snap, args, kwargs, result, None)
-            finally:
-                ctx.in_oracle -= 1
+            if pre_ok:
+                ctx.in_oracle += 1
+                try:
+                    post(snap, args, kwargs, result, None)
+                except BudgetExceeded:
+                    raise
+                except Exception:
+                    # a monitor must never disturb the observed program
+                    ctx.monitor_error(name)
+                finally:
+                    ctx.in_oracle -= 1
             return result
 
         wrapper.__rtv_orig__ = raw
@@ -289,6 +305,17 @@ class Ctx:
                 wit["stack"] = ["<stack too deep to format>"]
             self.violations.append(wit)
 
+    def monitor_error(self, name):
+        """an oracle itself raised: never a verdict about the code; the run
+        ends INCONCLUSIVE and the traceback is kept"""
+        self.counters["monitor.errors"] += 1
+        if len(self.notes) < 5:
+            self.notes.append("monitor on %s raised: %s" % (
+                name, traceback.format_exc(limit=-3).strip()[-400:]))
+        msg = "a monitor raised an exception (harness defect)"
+        if msg not in self.inconclusive:
+            self.inconclusive.append(msg)
+
     def inconclusive_if(self, cond, reason):
         if cond:
             self.inconclusive.append(reason)
@@ -402,6 +429,10 @@ def run_worker(pid, tier, seed, worker, nworkers, replay_case=None):
                     % (type(exc).__name__, exc,
                        "".join(traceback.format_exc(limit=-6))),
                     exc=type(exc).__name__)
+            if (tier == "thorough" and worker == 0 and
+                    getattr(mod, "RUN_REPO_SUITE", False)):
+                from . import suite
+                suite.run_repo_tests(ctx, repo)
         if hasattr(mod, "finish"):
             mod.finish(ctx, repo)
     finally:
